@@ -22,7 +22,7 @@ DataSeqs(n) == UNION {[1..k -> Bytes] : k \in 0..n}
 Init ==
   /\ S = [imm |-> [si \in SIsI |-> [sh \in Shares |-> AbsentB]],
           mut |-> [si \in SIsM |-> [sh \in Shares |-> AbsentM]],
-          clock |-> 0, free |-> SetMax(FreeValues), readonly |-> FALSE]
+          clock |-> 0, capacity |-> SetMax(FreeValues), reserved |-> 0, readonly |-> FALSE]
   /\ nw = 0 /\ nops = 0
   /\ acked = [b \in AllB |-> <<>>]
   /\ closedOK = {}
@@ -84,8 +84,8 @@ DoDisconnect ==
     /\ UNCHANGED <<nw, acked, closedOK>>
 
 DoSetFree ==
-  \E f \in FreeValues : /\ f # S.free
-                        /\ Step("SetFree", "", {}, [S EXCEPT !.free = f])
+  \E f \in FreeValues : /\ f # S.capacity
+                        /\ Step("SetFree", "", {}, [S EXCEPT !.capacity = f])
                         /\ UNCHANGED <<nw, acked, closedOK>>
 
 DoLease ==
@@ -131,7 +131,7 @@ C22_NoTrace ==
         /\ InProgress(S') = InProgress(S) - SumSizes(S, last'.touched)]_vars
 \* C28: at every acceptance the uploads in progress (including the new ones) fit in the available space
 C28_NoOvercommit_Inv ==
-  [][(last'.op = "Allocate" /\ last'.touched # {}) => InProgress(S') <= last'.free]_vars
+  [][(last'.op = "Allocate" /\ last'.touched # {}) => Need(S') <= last'.free]_vars
 C28_Release ==
   [][(last'.op = "Close" /\ last'.res = "ok") => InProgress(S') = InProgress(S) - SumSizes(S, last'.touched)]_vars
 \* C25: leases never disappear from a surviving share and never move backwards; no duplicates (in StateOK)
